@@ -1,0 +1,33 @@
+//go:build verif
+
+// Package verifhook provides build-tag guarded observation points used by the runtime monitors in /verif.
+// With the verif tag off every call compiles to nothing.
+package verifhook
+
+import "sync/atomic"
+
+// Handler is called at every hook point reached while a handler is installed.
+// point names the call site, key identifies the object (a mutex, bus, listener, router), val carries an optional payload.
+// A handler invoked at a point where a lock is held may only record or park, it must not call back into the same object.
+type Handler func(point string, key any, val any)
+
+var h atomic.Pointer[Handler]
+
+// Enabled reports whether hooks are compiled in.
+const Enabled = true
+
+// Set installs f as the handler for all hook points, nil removes it.
+func Set(f Handler) {
+	if f == nil {
+		h.Store(nil)
+		return
+	}
+	h.Store(&f)
+}
+
+// At reports that the calling goroutine reached point.
+func At(point string, key any, val any) {
+	if f := h.Load(); f != nil {
+		(*f)(point, key, val)
+	}
+}
